@@ -907,6 +907,45 @@ def input_aliasing_checks():
                             call=1, violated=f'first {first}, after the edit {again}, iterable: {l1} then {l2}'))
     except Exception as e:
         bad.append(dict(script=dict(text='one generator object in two positions / refilled axis / edited maps'), clause='reuse', call=0, violated=f'{type(e).__name__}: {e}'))
+    # predefined points are returned as given - also in a single-precision session; static points survive copies and pickles; a transform
+    # applies its maps on EVERY draw (maps may read state that changes between draws)
+    import copy as _copy, pickle as _pickle
+    prev_dt = torch.get_default_dtype()
+    try:
+        torch.set_default_dtype(torch.float32)
+        pts = np.array([1.0 + 2.0 ** -40, 3.0 + 2.0 ** -45, 0.1], dtype=np.float64)
+        got = G.PredefinedGenerator(pts, list(pts)).get_examples()
+        if [float(v) for v in got[0].detach().double()] != pts.tolist():
+            bad.append(dict(script=dict(text='PredefinedGenerator(float64 numpy points) in a float32 session'), clause='predefined', call=0,
+                            violated=f'points were rounded: {[float(v) for v in got[0].detach().double()]} expected {pts.tolist()}'))
+    except Exception as e:
+        bad.append(dict(script=dict(text='PredefinedGenerator in a float32 session'), clause='predefined', call=0, violated=f'{type(e).__name__}: {e}'))
+    finally:
+        torch.set_default_dtype(prev_dt)
+    try:
+        torch.manual_seed(12)
+        sg = G.StaticGenerator(G.Generator1D(5, 0.0, 1.0, method='uniform'))
+        ref = flat(sg.get_examples())
+        for how, cp in (('deepcopy', lambda o: _copy.deepcopy(o)), ('pickle', lambda o: _pickle.loads(_pickle.dumps(o)))):
+            try:
+                twin = cp(sg)
+            except Exception:
+                continue          # not being copyable is not what the property is about
+            if flat(twin.get_examples()) != ref or flat(sg.get_examples()) != ref:
+                bad.append(dict(script=dict(text=f'StaticGenerator over a random generator, {how}'), clause='static', call=1,
+                                violated='the copy (or the original afterwards) returns other points than the original did'))
+        state = dict(h=1.0)
+        for base_name, base in (('StaticGenerator', G.StaticGenerator(G.Generator1D(3, 0.0, 1.0, method='equally-spaced'))), ('PredefinedGenerator', G.PredefinedGenerator([0.0, 0.5, 1.0]))):
+            tg2 = G.TransformGenerator(base, transform=lambda x: x * state['h'])
+            state['h'] = 1.0
+            d1 = flat(tg2.get_examples())
+            state['h'] = 3.0
+            d2 = flat(tg2.get_examples())
+            if d1 != [[0.0, 0.5, 1.0]] or d2 != [[0.0, 1.5, 3.0]]:
+                bad.append(dict(script=dict(text=f'TransformGenerator over a {base_name} with a map that reads a changing horizon'), clause='transform', call=1,
+                                violated=f'draws {d1}, {d2}: the map was not applied anew on the second draw'))
+    except Exception as e:
+        bad.append(dict(script=dict(text='copies of static generators / transforms of fixed points'), clause='reuse', call=0, violated=f'{type(e).__name__}: {e}'))
     # sub-generators of different precision: every sample comes back with the value the sub-generator produced
     try:
         lo = G.PredefinedGenerator(torch.tensor([0.5, 1.5], dtype=torch.float32), torch.tensor([2.5, 3.5], dtype=torch.float32))
